@@ -494,10 +494,17 @@ def _families(ctx: Ctx) -> List[Tuple[str, dict]]:
         cases.append(("episodes", rig.gen_game_case(rng, n, arcs, rng.shuffle(list(range(n))), n_steps=rng.range(3, 14), rich=rng.chance(1, 2),
                                                     resets=True, bare_agents=True, decimal=rng.chance(1, 4))))
     # malformed stream: a shared-reward naming an agent that does not exist, duplicate refs
-    for k in range(ctx.scale(40, 400)):
+    for k in range(ctx.scale(90, 900)):
         n = rng.range(1, 3)
         arcs = [(u, v) for u in range(n) for v in range(n + 1) if u != v and rng.chance(1, 3)]  # v == n is a ghost
         c = rig.gen_game_case(rng, n, arcs, None, n_steps=1)
+        if rng.chance(1, 3):  # an unregistered component type / an entry that violates its schema, anywhere: refused at load
+            a = rng.choice(c["agents"])
+            bad = {"kind": "unknown", "weight": "1", "type": rng.choice(["no-such-reward", "shared_reward", "Dummy", "my-plugin-reward", ""])} \
+                if rng.chance(1, 2) else {"kind": "invalid", "weight": "1", "variant": rng.choice(rig.INVALID_VARIANTS)}
+            a["comps"].insert(rng.below(len(a["comps"]) + 1), bad)
+            if rng.chance(1, 4):
+                rng.choice(c["agents"])["comps"].append({"kind": "invalid", "weight": "1", "variant": rng.choice(rig.INVALID_VARIANTS)})
         if rng.chance(1, 2) and n >= 2:
             c["agents"][1]["ref"] = c["agents"][0]["ref"]  # duplicate ref: later agent replaces the earlier one
             for s in c["steps"]:
@@ -529,6 +536,11 @@ def _families(ctx: Ctx) -> List[Tuple[str, dict]]:
     for stem in (shipped if ctx.thorough else shipped[:3] + rng.shuffle(shipped[3:])[:4]):
         for mode in (("asis", "dyadic") if ctx.thorough or stem.startswith("uc7") else (rng.choice(["asis", "dyadic"]),)):
             cases.append(("env-shipped", rig.gen_env_case(rng, ctx.scale(24, 96), "shipped:" + stem, mode)))
+    # shipped episode SCHEDULES: every reset builds the next episode from another configuration (real EpisodeListScheduler)
+    for sd in (rig.ENV_SCHEDULES if ctx.thorough else rig.ENV_SCHEDULES[:2]):
+        c = rig.gen_env_case(rng, ctx.scale(12, 40), "sched:" + sd, "asis")
+        c["reset_at"] = sorted({3, 7, ctx.scale(10, 25)})
+        cases.append(("env-schedule", c))
     from harness.gen.scenario import FAMILIES as GEN_FAMILIES
     for k in range(ctx.scale(4, 40)):
         cases.append(("env-gen", rig.gen_env_case(rng, ctx.scale(24, 64), f"gen:{rng.choice(list(GEN_FAMILIES))}:{rng.range(1, 3)}",
